@@ -6,13 +6,14 @@ import os
 VERIF = os.path.dirname(os.path.dirname(os.path.abspath(__file__)))
 
 KANI = "Kani 0.68 / CBMC 6.11 bounded model checking of the compiled real code (SAT, cadical)"
+MIX = "Kani/CBMC harnesses + own MIR->SMT translation (z3 + cvc5) of loop-free decision kernels, native replay"
 CLAIMED = {
     "C02": dict(
-        text="PARTIAL. Bounded model checking (Kani/CBMC, SAT) of two kernels the property's mechanisms bottom out in: the value-count boundary "
-             "(ValueRange predicates and From<range> impls, all usize values) and per-occurrence grouping in MatchedArg (short symbolic op sequences). "
-             "Says nothing about token classification, index assignment or delimiter splitting inside the parser, which CBMC cannot reach (DESIGN 0).",
-        note="Kernel-level only. Trusted: rustc/Kani translation, std as compiled by Kani, CBMC. Lengths concrete, contents/configuration symbolic.",
-        ref="2 C02"),
+        text="PARTIAL. Solver-decided kernels the property's mechanisms bottom out in: (Kani) the value-count boundary (ValueRange predicates and From<range> impls, all usize values) and "
+             "per-occurrence grouping in MatchedArg (short symbolic op sequences); (MIR->SMT) ArgMatcher::needs_more_vals == 'pending count < max' and Parser::verify_num_args accepting exactly "
+             "the counts inside the declared range. Says nothing about token classification, index assignment or delimiter splitting inside the parser loop (DESIGN 0).",
+        note="Kernel-level only. Trusted: rustc/Kani translation, std as compiled by Kani, CBMC; for the MIR kernels every callee is a pure opaque value (listed in the evidence).",
+        ref="2 C02", technique=MIX),
     "C03": dict(
         text="PARTIAL (thin). Decides only 'defaults never count as presence': MatchedArg::set_source/check_explicit over all source sequences of length <= 3. "
              "Conflict/requirement graph walking in the validator is out of reach and not claimed.",
@@ -20,16 +21,18 @@ CLAIMED = {
         ref="2 C03"),
     "C04": dict(
         text="Bounded model checking of the value parsers' decisions: ranged integer parsers on CONCRETE boundary literals against EVERY range (lo, hi over all 64-bit values, "
-             "9 bound shapes) for each target width; boolean literal tables with a symbolic ASCII case per letter; possible-value matching with symbolic case and ignore_case. "
-             "Fully symbolic candidate strings are out of reach (DESIGN 0); typed access is not yet covered.",
+             "9 bound shapes) for each target width; boolean literal tables with a symbolic ASCII case per letter; possible-value matching with symbolic case and ignore_case (Kani). "
+             "Typed access (MIR->SMT): try_remove_arg_t / verify_arg_t decide by the type-id comparison and a failed remove re-inserts the entry on every path. "
+             "Fully symbolic candidate strings are out of reach (DESIGN 0).",
         note="Stubs cut message construction only (fmt::format, Error::with_cmd, Error::value_validation/invalid_value, format_bounds, usage for the non-UTF-8 path); "
-             "str::to_lowercase is replaced by to_ascii_lowercase (std's contract on ASCII-only input; inputs are ASCII-only).",
-        ref="2 C04"),
+             "str::to_lowercase is replaced by to_ascii_lowercase (std's contract on ASCII-only input; inputs are ASCII-only). Counterexamples of the heavy harnesses are realised by a native witness search.",
+        ref="2 C04", technique=MIX),
     "C06": dict(
-        text="PARTIAL. Source lattice (ValueSource order, set_source keeps the maximum, explicit-ness) for all source sequences <= 3, and the implicit default / "
-             "missing-value tables of every ArgAction incl. what Arg::_build installs. Phase order in the parser is out of reach.",
-        note="Kernel-level only; parser phases (add_env/add_defaults/react) not encoded.",
-        ref="2 C06"),
+        text="PARTIAL. (Kani) source lattice (ValueSource order, set_source keeps the maximum, explicit-ness) for all source sequences <= 3, and the implicit default / "
+             "missing-value tables of every ArgAction incl. what Arg::_build installs. (MIR->SMT) fixed phase order of Parser::get_matches_with and its error-ignoring recovery closure: "
+             "parse, resolve_pending, add_env, add_defaults, validate on every feasible path. What add_env/add_defaults/react do inside is out of reach.",
+        note="Kernel-level only; the bodies of add_env/add_defaults/react are not encoded.",
+        ref="2 C06", technique=MIX),
     "C07": dict(
         text="PARTIAL (thin). Action tables for every ArgAction and the default-action / value-count inference of Arg::_build for all num_args ranges, "
              "positional or not, 0-2 value names. The per-occurrence reaction (last-wins, append, count saturation, overrides) lives in Parser::react and is out of reach.",
@@ -41,17 +44,18 @@ CLAIMED = {
         note="Re-uses C13/C14 harnesses over clap_lex; says nothing about parse_long_arg/parse_short_arg.",
         ref="2 C08"),
     "C10": dict(
-        text="PARTIAL. kind -> stream -> exit code for EVERY ErrorKind (exhaustive match, symbolic discriminant). Which kind the parser/validator produces, "
-             "and whether it is justified, is out of reach.",
-        note="Covers Error::new/stream/use_stderr/exit_code only.",
-        ref="2 C10"),
+        text="PARTIAL. (Kani) kind -> stream -> exit code for EVERY ErrorKind (exhaustive match, symbolic discriminant). (MIR->SMT) value-count verification: Parser::verify_num_args rejects "
+             "exactly the counts outside the declared range and names the rule really broken (empty / wrong number / too few / too many), never when errors are ignored. "
+             "Unknown-token triage, conflict/required justification and suggestions are out of reach.",
+        note="Covers Error::new/stream/use_stderr/exit_code and verify_num_args only.",
+        ref="2 C10", technique=MIX),
     "C12": dict(
-        text="PARTIAL. Solver-decided absence of integer overflow/underflow in the help column arithmetic (align_to_about, subcmd, arg_next_line_help, subcommand_next_line_help, "
-             "with longest_filter and Arg::is_positional inlined) translated from the nightly compiler's MIR of the current tree to SMT bit-vectors and discharged by z3 and cvc5; "
-             "the link between `longest` and the widths is derived from the MIR of write_args' loop body (incl. a discharged monotonicity obligation). "
-             "Says nothing about which items are listed, templates, wrapping or usage.",
+        text="PARTIAL. Solver-decided (MIR->SMT, z3 + cvc5) absence of integer overflow/underflow in the help column arithmetic (align_to_about, subcmd, arg_next_line_help, subcommand_next_line_help, "
+             "with longest_filter and Arg::is_positional inlined; the link between `longest` and the widths is derived from the MIR of write_args' loop body incl. a discharged monotonicity obligation), "
+             "and functional equivalence of the visibility predicates should_show_arg / should_show_subcommand with their documented rule. "
+             "Says nothing about section assembly, templates, wrapping or usage.",
         note="Call results (display widths, Arg getters) are free symbols under the contracts listed in the evidence; loops are not encoded (one loop body is); "
-             "a sat answer is only reported after a native replay on a family of concrete commands panics.",
+             "a sat answer is only reported after a native replay on a family of concrete commands misbehaves.",
         ref="2 C12", technique="own MIR->SMT-LIB2 translation of loop-free scalar kernels (bit-vectors), z3 + cvc5, native replay"),
     "C13": dict(
         text="Bounded model checking of the real clap_lex through its public API: for EVERY byte string of each length up to the bound (all 256 values per byte) "
@@ -65,10 +69,11 @@ CLAIMED = {
         note="Bounds in evidence. insert with symbolic index is beyond CBMC (17-24 GB) and is checked from each of the 6 concrete index states of a 3-item list.",
         ref="2 C14"),
     "C20": dict(
-        text="PARTIAL. Width accounting (display_width vs an ANSI-skip reference) and word splitting (find_words_ascii_space: consecutive non-empty pieces, cuts only at space->non-space) "
-             "for EVERY ASCII string up to the length bound. The line filler and end-to-end wrap are out of reach (DESIGN 0), so the width-bound and content-preservation statements for whole texts are not decided.",
-        note="Feature unicode off (every char width 1); ASCII alphabet (128 values per byte).",
-        ref="2 C20"),
+        text="PARTIAL. (Kani) width accounting (display_width vs an ANSI-skip reference) and word splitting (find_words_ascii_space: consecutive non-empty pieces, cuts only at space->non-space) "
+             "for EVERY ASCII string up to the length bound. (MIR->SMT) the loop BODY of LineWrapper::wrap equals the reference step from an arbitrary state (running width restarts from the re-emitted "
+             "indent after a break, index skips the inserted items). End-to-end wrap of whole texts and styled text are not decided.",
+        note="Feature unicode off (every char width 1); ASCII alphabet (128 values per byte); the step's callees (display_width, trim_end, str::len, Vec::insert) are opaque pure values.",
+        ref="2 C20", technique=MIX),
 }
 
 NOT_APPLICABLE = {
@@ -116,7 +121,7 @@ def main():
         "engines": [
             {"name": "kani", "path": "/verif/runner/kani.py", "serves_properties": sorted(p for p in CLAIMED if p != "C12"),
              "kind_free_text": "Kani 0.68/CBMC 6.11 harnesses (kani/lex external crate; harness/*.rs included into clap_builder under cfg clap_verif); counterexamples replayed natively via concrete playback"},
-            {"name": "mirsmt", "path": "/verif/runner/mir_check.py", "serves_properties": ["C12"],
+            {"name": "mirsmt", "path": "/verif/runner/mir_check.py", "serves_properties": ["C02", "C04", "C06", "C10", "C12", "C20"],
              "kind_free_text": "MIR (cargo +nightly rustc -Zunpretty=mir, overflow checks on) of loop-free scalar functions -> SMT-LIB2 bit-vector queries (mirsmt/*.py), decided by z3 and cvc5; candidates realised by a native #[test] in the harness module"},
         ],
         "checks": checks,
